@@ -56,3 +56,6 @@ ASSUMPTIONS.append("slice_to_bound is under contract for views with a positive s
 MANIFEST_ENTRY['text'] += (" ImageViewerState.numpy_slice_aggregation_transpose is proved for ranks 2-4, every pair of displayed axes and every mix of scalar and aggregated remaining axes: whole axis for the displayed "
                            "axes, the stored slice for aggregated axes, the index for scalar axes, one aggregation entry per surviving axis in axis order, transposed iff the y axis follows the x axis.")
 TRUSTED_BASE.append("numpy_slice_aggregation_transpose contract: the viewer state is a record of reference_data.ndim, slices, x_att.axis, y_att.axis (echo callback properties read as plain attributes); AggregateSlice is a class tag")
+
+CONFIG_NOTE = {k: v + ("; slice_to_bound for steps None / 1-%s with size, start and stop symbolic (None or any integer); numpy_slice_aggregation_transpose for ranks 2-4 x every ordered pair of displayed axes x "
+                       "every scalar / aggregated assignment of the other axes" % ('8' if k == 'quick' else '16')) for k, v in CONFIG_NOTE.items()}
